@@ -270,6 +270,7 @@ func main() {
 	genGov(fc)
 	genEVM(fc)
 	genGas(fc)
+	genWiring(fc)
 	var names []string
 	for k := range fc.files {
 		names = append(names, k)
